@@ -265,3 +265,57 @@ package encoder
 // distinct allocations: two different pooled RuntimeContext buffers never overlap
 //@   callassume indentAndWrite: apart(dstCtx.Buf, srcBuf)
 //@   assigns M, RuntimeContext.Buf
+
+// ---------------------------------------------------------------- type -> opcode-set cache (C14)
+// The owner of a cached program is its real Type field.
+//@ spec slot(t) := (t - typeAddr.BaseTypeAddr) >> typeAddr.AddrShift
+//@ spec onFastPath(t) := typeAddr.BaseTypeAddr <= t && t <= typeAddr.MaxTypeAddr
+//@ spec gridded(t) := (t - typeAddr.BaseTypeAddr) % pow2(typeAddr.AddrShift) == 0
+//@ spec cacheShape() := typeAddr != nil && (typeAddr.AddrShift == 0 || typeAddr.AddrShift == 5 || typeAddr.AddrShift == 6) && len(cachedOpcodeSets) == (typeAddr.AddrRange >> typeAddr.AddrShift) + 1 && (typeAddr.AddrRange == typeAddr.MaxTypeAddr - typeAddr.BaseTypeAddr || typeAddr.BaseTypeAddr > typeAddr.MaxTypeAddr)
+//@ spec slotsOwned() := forall i :: 0 <= i && i < len(cachedOpcodeSets) && cachedOpcodeSets[i] != nil ==> onFastPath(cachedOpcodeSets[i].Type) && gridded(cachedOpcodeSets[i].Type) && slot(cachedOpcodeSets[i].Type) == i
+
+//@ func initEncoder()
+//@   props C14
+//@   trusted sync.Once: the closure initEncoder$1 has completed before Do returns; it is the only writer of typeAddr and allocates an all-nil cachedOpcodeSets of the stated length; later calls change nothing
+//@   requires typeAddr != nil ==> slotsOwned()
+//@   ensures cacheShape() && slotsOwned()
+//@   assigns global typeAddr, global cachedOpcodeSets
+
+//@ func newCompiler() (c)
+//@   props C14
+//@   trusted allocation of a Compiler
+//@   ensures c != nil
+//@   assigns nothing
+
+//@ func (*Compiler).compile(c, typeptr) (set, err)
+//@   props C14
+//@   trusted reflection-driven opcode compiler; assumed to build the program of exactly the requested type (codeToOpcodeSet stores typ in OpcodeSet.Type)
+//@   ensures err == nil ==> set != nil && set.Type == typeptr
+//@   ensures forall i :: 0 <= i && i < len(cachedOpcodeSets) ==> cachedOpcodeSets[i] == old(cachedOpcodeSets[i]) && (cachedOpcodeSets[i] != nil ==> cachedOpcodeSets[i].Type == old(cachedOpcodeSets[i].Type))
+//@   assigns OpcodeSet.Type
+
+//@ func compileToGetCodeSetSlowPath(typeptr) (set, err)
+//@   props C14
+//@   trusted map keyed by the exact type address (map operations are opaque to the verifier)
+//@   ensures err == nil ==> set != nil && set.Type == typeptr
+//@   assigns nothing
+
+// Query filtering: without a field query the program itself is returned; with one, a program
+// derived from the same OpcodeSet (same Type) is returned.
+//@ func getFilteredCodeSetIfNeeded(ctx, codeSet) (set, err)
+//@   props C14
+//@   trusted reflection/map based filtering; only its identity/type behaviour is assumed
+//@   requires ctx != nil && codeSet != nil
+//@   ensures err == nil ==> set != nil && set.Type == old(codeSet.Type)
+//@   ensures forall i :: 0 <= i && i < len(cachedOpcodeSets) ==> cachedOpcodeSets[i] == old(cachedOpcodeSets[i]) && (cachedOpcodeSets[i] != nil ==> cachedOpcodeSets[i].Type == old(cachedOpcodeSets[i].Type))
+//@   ensures codeSet.Type == old(codeSet.Type)
+//@   assigns OpcodeSet.Type, Option.Flag
+
+//@ func CompileToGetCodeSet(ctx, typeptr) (set, err)
+//@   props C14 C06
+//@   requires ctx != nil
+//@   requires typeAddr != nil ==> slotsOwned()
+//@   postassume initEncoder: onFastPath(typeptr) ==> gridded(typeptr)
+//@   ensures err == nil ==> set != nil && set.Type == typeptr
+//@   ensures slotsOwned()
+//@   assigns global typeAddr, global cachedOpcodeSets, OpcodeSet.Type, Option.Flag, class T:*encoder.OpcodeSet
